@@ -43,7 +43,14 @@ def stage_chunk(idx, items):
             def boom(*a, **k):
                 raise exc('injected in ' + stage)
             saved = None
-            if stage.startswith('compile_expression@') or stage.startswith('compile_jacobian@'):
+            badkw = {}
+            if stage.startswith('kwarg:'):
+                # the fault comes from a pass-through keyword the underlying solver rejects (no monkeypatching at all)
+                badkw = {'callback': {'callback': (lambda *a, **k: None)}, 'bogus': {'no_such_option_': 1},
+                         'integrality': {'integrality': [1] * 17}}[stage.split(':')[1]]
+                saved = (ss, '_build_solver_cache', ss._build_solver_cache)
+                boom = ss._build_solver_cache
+            elif stage.startswith('compile_expression@') or stage.startswith('compile_jacobian@'):
                 # the k-th compilation inside the cache builder fails: a partly built cache must not be left behind
                 import optyx.core.compiler as cc
                 name, k = stage.split('@')
@@ -68,7 +75,7 @@ def stage_chunk(idx, items):
                 with warnings.catch_warnings():
                     warnings.simplefilter('ignore')
                     try:
-                        s = prob.solve(method=method)
+                        s = prob.solve(method=method, **badkw)
                         out = ('solution', s.status.value)
                     except BaseException as e:
                         out = ('raised', type(e).__name__)
@@ -257,7 +264,9 @@ def run(report, tier):
                                     ('compile_expression@1', 'SLSQP', 3, [11]), ('compile_expression@2', 'SLSQP', 3, [11, 12]),
                                     ('compile_expression@3', 'trust-constr', 4, [11, 12]), ('compile_jacobian@1', 'SLSQP', 3, [11]),
                                     ('compile_jacobian@2', 'SLSQP', 3, [11, 12]), ('compile_jacobian@3', 'SLSQP', 4, [12, 11]),
-                                    ('build_solver_cache', 'auto', 4, []), ('lp_extract', 'auto', 1, [11]), ('lp_extract', 'linprog', 2, []))
+                                    ('build_solver_cache', 'auto', 4, []), ('lp_extract', 'auto', 1, [11]), ('lp_extract', 'linprog', 2, []),
+                                    ('kwarg:callback', 'auto', 1, [11]), ('kwarg:callback', 'highs-ds', 2, []), ('kwarg:integrality', 'linprog', 1, [11]),
+                                    ('kwarg:bogus', 'SLSQP', 3, [11]), ('kwarg:bogus', 'auto', 4, []))
              for exc in ('ValueError', 'MemoryError', 'KeyboardInterrupt', 'RecursionError') for kind in ('scalar', 'vector')]
     batch = []
     for part in histrun.parallel(stage_chunk, items, chunk=4):
